@@ -105,6 +105,12 @@ def doc_lines(attrs):
 def norm_src_type(t):
     t = re.sub(r"'\w+\s*", "", t)
     t = re.sub(r"\s+", "", t)
+    # redundant parentheses around a single type are not part of the type
+    prev = None
+    while prev != t:
+        prev = t
+        t = re.sub(r"\(([^(),;]+)\)", r"\1", t)
+        t = re.sub(r"\((\([^()]*\))\)", r"\1", t)
     return strip_paths(t)
 
 
@@ -121,7 +127,24 @@ def expected_type_name(t):
     return re.sub(r"\s+", "", t)
 
 
-def mirror(item, crate):
+def eval_const_expr(src, consts):
+    """integer value of a simple constant expression (literals, byte literals, named constants of the corpus, + - * << >> | & and `as` casts)"""
+    t = src.strip()
+    t = re.sub(r"\bas\s+\w+", "", t)
+    t = re.sub(r"b'(.)'", lambda m: str(ord(m.group(1))), t)
+    t = re.sub(r"(\d)_?(u8|u16|u32|u64|usize|i8|i16|i32|i64|isize)\b", r"\1", t)
+    for k, v in consts.items():
+        t = re.sub(r"\b%s\b" % re.escape(k), "(%s)" % v, t)
+    if not re.fullmatch(r"[0-9xXa-fA-F\s()+\-*<>|&]+", t):
+        return None
+    try:
+        return int(eval(t, {"__builtins__": {}}, {}))
+    except Exception:
+        return None
+
+
+def mirror(item, crate, consts=None):
+    consts = consts or {}
     tokens = " ".join(raw_scale_info_tokens(item["attrs"]))
     skipped = set()
     m = re.search(r"skip_type_params \(([^)]*)\)", tokens)
@@ -171,10 +194,10 @@ def mirror(item, crate):
                 continue
             idx = codec_index(v["attrs"])
             if idx is None and v.get("discriminant") is not None:
-                try:
-                    idx = int(v["discriminant"].strip())
-                except ValueError:
-                    idx = None
+                idx = eval_const_expr(v["discriminant"], consts)
+                if idx is None:
+                    raise ValueError("mirror cannot evaluate the discriminant expression %r" % v["discriminant"])
+                idx &= 0xFF  # emitted as `(expr) as u8`
             if idx is None:
                 idx = pos
             vs.append({"name": v["ident"], "index": idx, "fkind": None if v["body"]["kind"] == "unit" else v["body"]["kind"],
@@ -242,6 +265,12 @@ def corpus(chk, tier):
         fn = [it for it in imp["items"] if it["name"] == "type_info"]
         ident = [it for it in imp["items"] if it["name"] == "Identity"]
         derived[st["d"]] = (imp, fn[0]["path"], ident[0] if ident else None)
+    consts = {}
+    for f, it in sf.items("fixtures"):
+        if it["kind"] == "const" and it.get("expr"):
+            v = eval_const_expr(it["expr"], consts)
+            if v is not None:
+                consts[it["ident"]] = v
     n = 0
     programs = 0
     disagreements = 0
@@ -265,7 +294,7 @@ def corpus(chk, tier):
             chk.unrecognised("R9.T", "decl:" + full, where, "derived type_info body outside the builder vocabulary: %s" % e, None)
             continue
         got = from_shape(sh)
-        want = mirror(it, "verif_fixtures")
+        want = mirror(it, "verif_fixtures", consts)
         # parameter types: the argument's own meta type
         for p in want["params"]:
             p["ty"] = None if p["skipped"] else p["name"]
